@@ -2,6 +2,7 @@ package main
 
 import (
 	"fmt"
+	"strings"
 
 	sdkmath "cosmossdk.io/math"
 	sdk "github.com/cosmos/cosmos-sdk/types"
@@ -67,6 +68,10 @@ func (e *env) attestationCases() []string {
 		{"oracle-set-unknown", 1, func(sdk.Context) int64 { return 7777 }, osc(func(sdk.Context) uint64 { return 7777 })},
 		{"oracle-set-zero", 1, func(sdk.Context) int64 { return 0 }, osc(func(sdk.Context) uint64 { return 0 })},
 		{"oracle-set-known", 1, func(ctx sdk.Context) int64 { return int64(latestOS(ctx)) }, osc(latestOS)},
+		// a handler that PANICS (unknown batch): not a tolerated failure — the vote transaction fails as a whole
+		{"send-to-external-unknown-batch", 4, func(sdk.Context) int64 { return 0 }, func(sdk.Context) crosschaintypes.ExternalClaim {
+			return &crosschaintypes.MsgSendToExternalClaim{BatchNonce: 4242, TokenContract: e.toks[0].Contract}
+		}},
 		{"send-to-fx", 2, nil, func(sdk.Context) crosschaintypes.ExternalClaim {
 			return &crosschaintypes.MsgSendToFxClaim{TokenContract: e.toks[1].Contract, Amount: sdkmath.NewInt(5),
 				Sender: lib.EthKey(c.Seed, "ext", 1).Hex().Hex(), Receiver: lib.EthKey(c.Seed, "warm", 1).Acc().String()}
@@ -112,8 +117,28 @@ func (e *env) attestationCases() []string {
 		B1 = B1.WithEventManager(sdk.NewEventManager())
 		myClaim := cloneClaim(claim)
 		err := e.vote(B1, last, myClaim)
-		lib.Must(err) // the vote itself is accepted; only the handler may fail
 		post := c.DumpAll(B1)
+		if err != nil {
+			// the transaction failed (handler panic): nothing of it may stay, not even the vote; the event is NOT observed
+			if !strings.Contains(err.Error(), "PANIC") {
+				panic("vote refused for another reason: " + err.Error())
+			}
+			if diff := lib.DiffDumps(c.DumpAll(B), post); len(diff) > 0 {
+				e.failSig(lib.Failure{Kind: "monitor", Sig: "C18:attestation:panic:" + s.name,
+					What:   "a vote transaction whose handler panicked left writes behind",
+					Replay: map[string]interface{}{"scenario": s.name, "diff(-pre,+post)": diff}})
+			}
+			e.rep.Case("att:"+s.name, false)
+			e.rep.Count(fmt.Sprintf("attestation:%s:tx-failed", s.name))
+			_, pend := k.GetPendingExecuteClaim(B1, nonce)
+			lastOS2 := int64(0)
+			if los := k.GetLastObservedOracleSet(B1); los != nil {
+				lastOS2 = int64(los.Nonce)
+			}
+			out = append(out, fmt.Sprintf("mk_att_case %s %s %d %d %d %d 2 %d false %s %d",
+				lib.ZList(tokens), lib.ZList(osets), lastOS, nonce-1, s.kind, arg, k.GetLastObservedEventNonce(B1), lib.Bool(pend), lastOS2))
+			continue
+		}
 		ok, seen := false, false
 		for _, ev := range B1.EventManager().Events() {
 			if ev.Type != crosschaintypes.EventTypeContractEvent {
@@ -158,9 +183,13 @@ func (e *env) attestationCases() []string {
 		}
 		e.rep.Case("att:"+s.name, !ok)
 		e.rep.Count(fmt.Sprintf("attestation:%s:ok=%v", s.name, ok))
-		out = append(out, fmt.Sprintf("mk_att_case %s %s %d %d %d %d %s %d %s %s %d",
+		cls := 1
+		if ok {
+			cls = 0
+		}
+		out = append(out, fmt.Sprintf("mk_att_case %s %s %d %d %d %d %d %d %s %s %d",
 			lib.ZList(tokens), lib.ZList(osets), lastOS, nonce-1, s.kind, arg,
-			lib.Bool(ok), obsNonce, lib.Bool(obsTok), lib.Bool(obsPending), obsLastOS))
+			cls, obsNonce, lib.Bool(obsTok), lib.Bool(obsPending), obsLastOS))
 	}
 	return out
 }
